@@ -262,7 +262,7 @@ func runCheck(prop, tier string, seed uint64, budget time.Duration, maxRuns int)
 	c := &Checker{Prop: prop, Tier: tier, Seed: seed, Start: time.Now(), Workers: 16, builds: map[string]*Build{}, baseline: map[string]*Rec{}, agg: newAgg()}
 	c.Deadline = c.Start.Add(budget)
 	if tier == "quick" && digestProps(prop) {
-		c.Bank = 400 // a prefix of the bank: fresh-process baselines are shared by all histories of the run
+		c.Bank = 300 // a prefix of the bank: fresh-process baselines are shared by all histories of the run
 	}
 	fmt.Printf("VERIF_SEED=%d property=%s tier=%s budget=%s\n", seed, prop, tier, budget)
 	known := loadKnown()
@@ -296,11 +296,19 @@ func runCheck(prop, tier string, seed uint64, budget time.Duration, maxRuns int)
 	var machineErr error
 	round := 0
 	for time.Now().Before(c.Deadline) && next < maxRuns && machineErr == nil {
+		// jobs of the plans are interleaved, so that a time box that closes early has visited every configuration
 		var jobs []job
-		for _, p := range plans {
-			for k := 0; k < p.Runs*4; k++ {
-				jobs = append(jobs, job{p, next})
-				next++
+		for k := 0; ; k++ {
+			any := false
+			for _, p := range plans {
+				if k < p.Runs*4 {
+					jobs = append(jobs, job{p, next})
+					next++
+					any = true
+				}
+			}
+			if !any {
+				break
 			}
 		}
 		round++
